@@ -518,6 +518,7 @@ func runC13(c *Ctx, out string) {
 		cc.fail("output", "os.Stdout/os.Stderr during the workload", s, "no bytes", "descriptors 1 and 2 redirected to a pipe")
 	}
 	cc.samples = lines[:5]
+	cc.requests = len(lines) * (histories + 1)
 	cc.write(out, map[string]interface{}{"calls": len(lines), "histories": histories, "goroutines": G, "repetitions": reps,
 		"race_detector": raceEnabled, "captured_output_bytes": captured.Len(), "mutated_arguments": len(mutated), "result_differences": len(diffs)})
 }
@@ -721,6 +722,7 @@ func runC14(c *Ctx, out string) {
 			}
 		}
 	}
+	cc.requests = 2*len(rows) + len(cc.order)
 	cc.samples = []string{"and_of_ors n=12: " + func() string { e, _ := families[3].mk(12); return e }()}
 	cc.write(out, map[string]interface{}{"measurements": rows})
 }
